@@ -4,7 +4,7 @@ from wallet_common import *
 
 MANIFEST_ENTRY = dict(
     cat="model_checking", ref="DESIGN.md 4 C04", engine="wallet-tla",
-    text="TLC explores histories of mining to the wallet, sends, (invoices in thorough), two accounts with switching and sends from a named account, skipped refreshes and cancels, and checks BooksEqualChain, LedgerEquality and AccountIsolation on the model after every refresh; on the real code TLC compares, after every successful refresh, the observed records with the REAL chain's unspent set (Chain::get_unspent for every commitment the harness has seen), the five reported balance figures with their definitions over the observed records, and confirmed credits minus debits with total+locked - except for wallets that cancelled a transaction that was or later is broadcast (Appendix B).",
+    text="TLC explores histories of mining to the wallet, sends, (invoices in thorough), two accounts with switching and sends from a named account, skipped refreshes and cancels, and checks BooksEqualChain, LedgerEquality and AccountIsolation on the model after every refresh; on the real code TLC compares, after every successful refresh, the observed records with the REAL chain's unspent set (Chain::get_unspent for every commitment the harness has seen), the five reported balance figures with their definitions over the observed records, (asked for under minimum-confirmation settings 0, 1, 2 and 4), confirmed credits minus debits with the summed value of the records that are unspent or reserved (= total+locked for settings >= 1), and - on every observed send / reserve / finalize / cancel / pay-invoice step - that no output of ANOTHER account of the wallet changes status (AccountIsolation; two funded accounts with equal log ids are part of the quick tier) - except for wallets that cancelled a transaction that was or later is broadcast (Appendix B).",
     technique="TLC model checking of spec/MCWallet.tla + TLC-generated behaviours replayed on the real code + TLC trace validation (spec/TraceWallet.tla) against the real chain's UTXO set",
     note=WALLET_NOTE)
 
